@@ -24,6 +24,7 @@ CONSTANTS
   MaxDon,      \* donations per behaviour
   WithInvalid, \* also offer malformed / unauthorised variants of every message
   WithGenesis, \* also offer genesis round trips
+  WithQueries, \* C16: also offer queries (answers are compared with the state the request describes)
   Faults,      \* C07: a block is offered with fault = f for every f here (0 = no injected bank failure)
   HookVariants \* C17: also offer every input with one failing listener
 
@@ -182,6 +183,19 @@ HookVariantsOf(S) ==
   IF ~HookVariants THEN S
   ELSE S \cup UNION { { m @@ [hookFail |-> h, hookPos |-> p] : h \in HooksOf(m.a), p \in 1..NL } : m \in S }
 
+Queries(s) ==
+  LET ids == 0..Len(s.auctions) IN      \* includes one id that does not exist
+  { [a |-> "Query", q |-> "GetAuction", id |-> i] : i \in ids }
+  \cup { [a |-> "Query", q |-> "ListAuction", status |-> x, type |-> y] :
+            x \in {"", "StandBy", "Started", "Vesting", "Finished", "Cancelled"}, y \in {"", "F", "B"} }
+  \cup { [a |-> "Query", q |-> "GetBid", id |-> i, bid |-> k] : i \in ids, k \in 1..3 }
+  \cup { [a |-> "Query", q |-> "ListBid", id |-> i, bidder |-> u, matched |-> x] :
+            i \in ids, u \in {""} \cup Bidders, x \in {"", "true", "false"} }
+  \cup { [a |-> "Query", q |-> "ListVestingQueue", id |-> i] : i \in ids }
+  \cup { [a |-> "Query", q |-> "ListAllowedBidder", id |-> i] : i \in ids }
+  \cup { [a |-> "Query", q |-> "GetAllowedBidder", id |-> i, u |-> u] : i \in ids, u \in Bidders }
+  \cup { [a |-> "Query", q |-> "Params"] }
+
 MCInputs0(kind, s, g) ==
   CASE kind = "CreateFixed" -> {m \in Creates(s) : m.a = "CreateFixed"}
     [] kind = "CreateBatch" -> {m \in Creates(s) : m.a = "CreateBatch"}
@@ -195,6 +209,7 @@ MCInputs0(kind, s, g) ==
     [] kind = "Donate" -> IF MaxDon > 0 THEN Donations(s, g) ELSE {}
     [] kind = "Genesis" -> IF WithGenesis THEN {[a |-> "Genesis"]} ELSE {}
     [] kind = "UpdateParams" -> {}
+    [] kind = "Query" -> IF WithQueries THEN Queries(s) ELSE {}
     [] kind = "OddCreate" -> IF WithInvalid /\ Len(s.auctions) < MaxAuc THEN BadCreates(s.now) ELSE {}
     [] kind = "OddBid" -> IF WithInvalid THEN OddBids(s) \cup (GoodBids(s) \ ValidDenomBids(s)) ELSE {}
     [] kind = "OddModify" -> IF WithInvalid THEN OddMods(s) ELSE {}
@@ -212,6 +227,7 @@ Users2 == <<"u1", "u2">>
 Users3 == <<"u1", "u2", "u3">>
 Users4 == <<"u1", "u2", "u3", "u4">>
 Users6 == <<"u1", "u2", "u3", "u4", "u5", "u6">>
+BagQueries == BagDefault \cup W("Query", 10)
 BagGenesis == BagDefault \cup W("Genesis", 4)
 BagBids == W("CreateFixed", 2) \cup W("CreateBatch", 3) \cup W("AddAllowed", 4) \cup W("UpdateAllowed", 1)
            \cup W("Bid", 16) \cup W("Modify", 3) \cup W("Block", 6) \cup W("Donate", 1)
